@@ -140,6 +140,16 @@ class ThreadSched:
             self.state[t] = "running"
 
         def body() -> None:
+            if t == 1 and rt.prog.get("parent_is_task") and not getattr(rt.tls, "in_task", False):
+                # task 1 is an asyncio TASK (of a loop of its own): the workers it spawns are loop-less threads running
+                # in copies of a task's context, as asyncio.to_thread / run_in_executor + Context.run make them
+                rt.tls.in_task = True
+
+                async def main() -> None:
+                    body()
+
+                asyncio.run(main())
+                return
             rt.tls.t = t
             try:
                 rt.run_script(list(rt.prog["drv"][t - 1]), "drv")
